@@ -685,7 +685,7 @@ func eqnil(t types.Type, x, y value) bool {
 	case []value:
 		return (x != nil) == (y.([]value) != nil)
 	}
-	panic(fmt.Sprintf("eqnil(%s): illegal dynamic type: %T", t, x))
+	panic(fmt.Sprintf("eqnil(%s): illegal dynamic type: %T vs %T", t, x, y))
 }
 
 func (fr *frame) unop(instr *ssa.UnOp, x value) value {
@@ -705,6 +705,9 @@ func (fr *frame) unop(instr *ssa.UnOp, x value) value {
 			return -x
 		}
 	case token.MUL:
+		if le, ok := x.(lazyElem); ok {
+			return fr.indexValue(le.elems, le.idx)
+		}
 		p := x.(*value)
 		if p == nil {
 			panic(runtimeError("runtime error: invalid memory address or nil pointer dereference"))
